@@ -6,7 +6,7 @@ class Prop:
     id = "C05"
     level = "exploration"
     engine = "VT (virtual-time discrete-event simulation on the repo's TestScheduler / VirtualTimeScheduler / HistoricalScheduler)"
-    quick_runs = 60000
+    quick_runs = 200000
     thorough_runs = 3000000
     quick_budget = 50.0
     thorough_budget = 900.0
